@@ -15,6 +15,7 @@ pub mod c_sig;
 pub mod c_trait;
 pub mod c_input;
 pub mod c_grammar;
+pub mod c_corner;
 
 #[derive(Clone, Copy, PartialEq, Eq)]
 pub enum Tier {
@@ -313,6 +314,7 @@ pub fn all_contracts() -> Vec<Contract> {
     v.extend(c_trait::contracts());
     v.extend(c_input::contracts());
     v.extend(c_grammar::contracts());
+    v.extend(c_corner::contracts());
     v
 }
 
